@@ -401,10 +401,15 @@ CHECKS = {
             "eig_reproduces (BD BD^T = C = B diag(d^2) B^T, B orthogonal, under the eigh contract), update_psd, history_consistent (all "
             "consistency clauses after every update of every history), weights_pos_noninc_sum1, params_defaults/params_user/default_rates_ok, "
             "lambda_default, generate_shape (exactly lambda individuals of the problem dimension, generate_some_iff)/sample_affine/sample_cov, order_independent_fitness/sort_best_fitness "
-            "(at the real lexicographic fitness key), no_zero_division under WellPosed, numericsOk_satisfiable (the eigh contract is satisfiable for every n by the spectral theorem). The Float instance of the same definitions is diffed against numpy after "
+            "(at the real lexicographic fitness key), no_zero_division under WellPosed, numericsOk_satisfiable (the eigh contract is satisfiable for every n by the spectral theorem), "
+            "update_frame / strategies_independent / args_frame / restart_fresh (in a program with several strategies and the caller's parameter objects, the state of strategy j is the fold of "
+            "the steps addressed to j over its own initial state; no library step changes a caller object; a restart from the same objects starts from the same state) and "
+            "computeParams_refresh (after lambda_ := k; computeParams the next update uses the refreshed mu, weights and learning rates only). The Float instance of the same definitions is diffed against numpy after "
             "every real update from the strategy's own pre-update state (dims 2..8, thorough 2..20; 1..50 generations; 3 schemes; default and "
             "user rates; 7 objectives incl. ties), and an independent numpy implementation of the published equations is the oracle, plus "
-            "bit-exact order independence on permuted populations.",
+            "bit-exact order independence on permuted populations. Stream alias: 2..4 strategies built from SHARED start point / cmatrix / keyword "
+            "dictionary objects, updated alternately, objects written by the caller between updates and re-used for restarts, populations re-used: every "
+            "strategy equals its own separate model replay, non-addressed strategies and caller objects stay bit-identical.",
             TB + "numpy.linalg.eigh/argsort are parameters of the model (contract V^T V = I, C = V diag(w) V^T checked numerically on every "
             "answer); the N(0,I) sampler and IEEE rounding are trusted (Float model vs numpy: 1e-6 per entry along histories with cond(C) <= 1e8, "
             "1e-8 for parameters); theorems are over the reals.",
